@@ -361,3 +361,21 @@ def twin_first(spec_expr, how, *fns):
         except Exception:
             pass
     return True
+
+
+def hash_twin(s):
+    """The spec with the constants -1 and -2 exchanged (ints and floats): in CPython
+    hash(-1) == hash(-2), and with them the hashes of all nodes built around them, so
+    the twin is an *unequal* expression with the *same* hash.  None if nothing changes."""
+    changed = [False]
+
+    def rec(x):
+        if isinstance(x, list):
+            if len(x) == 3 and x[0] == "Const" and x[1] in ("int", "float") \
+                    and not isinstance(x[2], bool) and x[2] in (-1, -2):
+                changed[0] = True
+                return [x[0], x[1], type(x[2])(-3 - x[2])]
+            return [rec(c) for c in x]
+        return x
+    out = rec(s)
+    return out if changed[0] else None
